@@ -133,7 +133,7 @@ def valid_selectors(tier):
         try:
             from pv.gen import selgen
 
-            gen = selgen.c18_seed_selectors(tier)
+            gen = selgen.c18_seed_selectors("quick")
             # (every generated selector in the thorough tier was measured: 32 000 seeds x ~1300 neighbours each,
             # with a probe made and activated for every string, does not finish in 40 minutes on 16 cores)
             sels += gen[::3]
